@@ -76,6 +76,9 @@ type chanv struct {
 	cap    int
 	closed bool
 	id     int
+	// thread mode (threads.go): rendezvous bookkeeping
+	sendCount, recvCount int
+	recvWaiters          int
 }
 
 // For map, array, *array, slice, string or channel.
